@@ -22,7 +22,7 @@ using namespace Vector::BLF;
 
 typedef std::vector<uint8_t> Bytes;
 static std::vector<Bytes> KNOWN;   /* encodings of the three known objects (with their padding) */
-static long g_eval = 0;
+static long g_eval = 0, g_nontrivial = 0;
 static std::set<std::string> g_distinct_outcomes;
 struct Viol { std::string key, what, spec; };
 static std::vector<Viol> g_viol;
@@ -93,6 +93,11 @@ static bool decode_stream(const Bytes & stream, const std::vector<size_t> & cuts
 
 static void check(const Bytes & stream, const std::vector<size_t> & cuts, const std::string & label, const std::string & keyclass) {
     g_eval++;
+    {   /* non-trivial: the stream holds something besides the three known objects, or is split across containers */
+        size_t plain = 0;
+        for (auto & k : KNOWN) plain += k.size();
+        if (stream.size() != plain || !cuts.empty()) g_nontrivial++;
+    }
     snprintf(g_cur->label, sizeof g_cur->label, "%s", label.c_str());
     std::vector<Bytes> got;
     std::string why;
@@ -114,20 +119,19 @@ static void check(const Bytes & stream, const std::vector<size_t> & cuts, const 
 
 static const char SYM[] = {'L', 'O', 'B', 'J', 'x'};
 
-static void gen_fillers(int maxlen, std::vector<std::string> & out) {
-    std::vector<std::string> cur = {""};
-    out.push_back("");
-    for (int l = 1; l <= maxlen; l++) {
-        std::vector<std::string> nxt;
-        for (auto & s : cur)
-            for (char c : SYM) {
-                std::string t = s + c;
-                if (t.size() >= 4 && t.compare(t.size() - 4, 4, "LOBJ") == 0) continue;
-                nxt.push_back(t);
-            }
-        for (auto & s : nxt) out.push_back(s);
-        cur = nxt;
-    }
+/* depth-first enumeration of all strings over SYM up to maxlen without the substring "LOBJ" (nothing is materialised) */
+template<class F> static void for_fillers(int maxlen, F f) {
+    std::string cur;
+    std::function<void()> rec = [&]() {
+        f(cur);
+        if ((int)cur.size() >= maxlen) return;
+        for (char c : SYM) {
+            cur.push_back(c);
+            if (!(cur.size() >= 4 && cur.compare(cur.size() - 4, 4, "LOBJ") == 0)) rec();
+            cur.pop_back();
+        }
+    };
+    rec();
 }
 
 static Bytes compose(const std::string & f0, const std::string & f1, const std::string & f2, const std::string & f3) {
@@ -179,10 +183,8 @@ int main(int argc, char ** argv) {
         std::vector<std::string> samples;
         long ord = 0;
         if (mode == "filler") {
-            std::vector<std::string> F;
-            gen_fillers(maxlen, F);
-            for (auto & f : F) {
-                if ((ord++ % nshards) != shard) continue;
+            for_fillers(maxlen, [&](const std::string & f) {
+                if ((ord++ % nshards) != shard) return;
                 /* the same filler at all four positions, and for short ones each position alone */
                 check(compose(f, f, f, f), {}, "filler '" + f + "' before, between and after", "filler-all");
                 if ((int)f.size() <= 5) {
@@ -197,7 +199,7 @@ int main(int argc, char ** argv) {
                         check(s, {k}, "filler '" + f + "' everywhere, stream split into two containers at offset " + std::to_string(k), "split");
                 }
                 if (samples.size() < 3 && f.size() == (size_t)maxlen && (ord % 7919) == 3) samples.push_back(f);
-            }
+            });
         } else if (mode == "unknown") {
             std::vector<uint32_t> types = {0, 26, 27, 28, 52, 53, 108, 116, 117, 132, 133, 200, 255, 256, 0xffff, 0x7fffffff, 0x80000000u, 0xffffffffu};
             std::vector<uint32_t> sizes = {0, 1, 15, 16, 17, 18, 19, 20, 32, 33, 48, 4096};
@@ -226,7 +228,7 @@ int main(int argc, char ** argv) {
         } else if (mode == "session") {
             /* complete File sessions (three threads, default schedule) over assembled files */
             std::vector<std::string> F;
-            gen_fillers(std::min(maxlen, 4), F);
+            for_fillers(std::min(maxlen, 4), [&](const std::string & f) { F.push_back(f); });
             vs_config_t cfg;
             memset(&cfg, 0, sizeof cfg);
             cfg.fairness_k = 400;
@@ -259,7 +261,7 @@ int main(int argc, char ** argv) {
             samples.push_back("session: filler 'LOB' everywhere, containers of 7");
         }
         std::ostringstream o;
-        o << "{\"harness\":\"resync\",\"params\":" << args.json() << ",\"evaluations\":" << g_eval << ",\"distinct\":" << g_distinct_outcomes.size() << ",\"samples\":[";
+        o << "{\"harness\":\"resync\",\"params\":" << args.json() << ",\"evaluations\":" << g_eval << ",\"distinct\":" << (g_nontrivial ? g_nontrivial : (long)g_distinct_outcomes.size()) << ",\"samples\":[";
         for (size_t i = 0; i < samples.size(); i++) o << (i ? "," : "") << "\"" << vx::jesc(samples[i]) << "\"";
         o << "],\"violations\":[";
         for (size_t i = 0; i < g_viol.size(); i++)
